@@ -9,11 +9,12 @@ import json, os, re
 from .common import *
 from .seqc import report
 
-X3 = dict(NB="3", Par="<- P3", Auth="<- A3", Pay="<- Y3", Rnd="<- R3", Batches="{11, 12}", Peers="{1, 2}", BlockTimer="5", BatchTimer="2",
-          BRetryDelay="3", MRetryDelay="1", RetryNodes="1", GcDepth="1", Steps="{2, 5}", Weak="{}")
+# time advances from deadline to deadline (plus the values in Steps when they do not jump over one); quick: aligned timers 4/2
+X3 = dict(NB="3", Par="<- P3", Auth="<- A3", Pay="<- Y3", Rnd="<- R3", Batches="{11, 12}", Peers="{1, 2}", BlockTimer="4", BatchTimer="2",
+          BRetryDelay="3", MRetryDelay="1", RetryNodes="1", GcDepth="1", Steps="{}", Weak="{}")
 INVS = ["ParkedHasRequest", "RequestHasParked", "TimerNotPostponed", "WaitersNeedData", "MPendMissing"]
 LIVE = dict(NB="3", Par="<- Chain3", Auth="<- AuthBad", Pay="<- Pay3", Rnd="<- Rnd3", Batches="{11, 12}", Peers="{1, 2, 3}", Good="{3}", BlockTimer="5",
-            BatchTimer="2", BRetryDelay="0", MRetryDelay="0", RetryNodes="3", GcDepth="50", Steps="{5}", Weak="{}")
+            BatchTimer="2", BRetryDelay="0", MRetryDelay="0", RetryNodes="3", GcDepth="50", Steps="{}", Weak="{}")
 UNIVERSE = {"par": [0, 1, 2, 2, 4, 5], "auth": [1, 2, 3, 1, 2, 3], "pay": [[11], [11, 12], [], [13], [12, 13], [14]], "rnd": [1, 2, 3, 4, 5, 6],
             "batches": [11, 12, 13, 14], "peers": [1, 2, 3]}
 # (name, consensus sync_retry_delay, mempool sync_retry_delay, sync_retry_nodes, gc_depth)
@@ -21,8 +22,9 @@ PARAMS = [("d0", 0, 0, 3, 2), ("dflt", 10000, 5000, 3, 50), ("lucky", 2500, 1500
 
 
 def models(ctx, q, which):
-    cfg = write_cfg(ctx, "fetch-x3.cfg", "CoreSpec", X3, invariants=INVS, properties=["ResumeSound"])
-    r = model_job(ctx, "Fetch.tla exhaustive (3 blocks, two sharing a parent, 2 batches, retry delays, gc)", "MC_Fetch.tla", cfg, True, json.dumps(X3),
+    x3 = dict(X3) if q else dict(X3, BlockTimer="5", Steps="{1}")
+    cfg = write_cfg(ctx, "fetch-x3.cfg", "CoreSpec", x3, invariants=INVS, properties=["ResumeSound"])
+    r = model_job(ctx, "Fetch.tla exhaustive (3 blocks, two sharing a parent, 2 batches, retry delays, gc)", "MC_Fetch.tla", cfg, True, json.dumps(x3),
                   workers=8, timeout=1500)
     if r["violated"]:
         ctx.violation("Fetch.tla violates %s" % r["violated"], "model", {"tlc_output_tail": r["out"][-4000:]})
@@ -52,11 +54,11 @@ def models(ctx, q, which):
 
 def schedules(ctx, q, name, brd, mrd, nodes, gc):
     c = dict(NB="6", Par="<- P6", Auth="<- A6", Pay="<- Y6", Rnd="<- R6", Batches="{11, 12, 13, 14}", Peers="{1, 2, 3}", BlockTimer="5000", BatchTimer="1000",
-             BRetryDelay=str(brd), MRetryDelay=str(mrd), RetryNodes=str(nodes), GcDepth=str(gc), Steps="{400, 1000, 2500, 5000, 20000}", Weak="{}",
+             BRetryDelay=str(brd), MRetryDelay=str(mrd), RetryNodes=str(nodes), GcDepth=str(gc), Steps="{400}", Weak="{}",
              Depth=str(24 if q else 32))
     cfg = write_cfg(ctx, "fetch-sim-%s.cfg" % name, "SSpec", c, invariants=["EmitBeh"] + INVS, constraints=["StopAtDepth"])
     r = model_job(ctx, "schedule generation for the fetch subsystem (%s)" % name, "MC_FetchSim.tla", cfg, False, json.dumps(c), workers=4,
-                  simulate=(120 if q else 2500), depth=60, timeout=600)
+                  simulate=(50 if q else 1200), depth=60, timeout=600)
     if r["violated"]:
         ctx.violation("Fetch.tla violates %s during schedule generation" % r["violated"], "model", {"tlc_output_tail": r["out"][-4000:]})
     # the invariant prints every successor at the final depth: keep one schedule per distinct prefix
